@@ -48,6 +48,12 @@ def check(ctx):
     mod = prog.modules.get("mqtt.pdu")
     if mod is None:
         raise AnalysisError("anchor vanished: mqtt.pdu")
+    # "for every valid remaining length in 0..268435455": the round trip starts with an encode() that accepts the packet.  The one guard
+    # on the packet size (PUBLISH.encode) must sit exactly at the top of the 4-byte length class - C02's S7 size-guard instance
+    from .common import run_premise
+    run_premise(ctx, "C02", "L1", "size-guard", "PUBLISH.encode accepts every remaining length up to 268435455",
+                "a valid packet is refused by encode(): there is nothing to decode, the round trip fails for that length class",
+                only=lambda f: f.construct.endswith("/size-guard"))
     probs, facts = check_primitives(prog)
     prim_names = ["encodeString", "decodeString", "encode16Int", "decode16Int", "encodeLength", "decodeLength"]
     by = {}
